@@ -276,3 +276,92 @@ def extract(src, errno_value):
     out.append("/-- C (`if (*cp == '\\n')`) -/\ndef lfByte : Nat := 10")
     out.append("/-- C (`message_buf[producer] = '\\r'`) -/\ndef crByte : Nat := 13")
     return "\n\n".join(out)
+
+
+# ---------------------------------------------------------------------------------------------------------------------
+# shape checks: control flow that Model.lean mirrors by hand (statement order, entry tests, which branch touches the
+# write interest, the flush triggers).  Each entry: (site, file, function header regex or None, pattern, count).
+# A pattern that no longer matches is a broken tie (the model may no longer mirror the code).
+
+WS = r"\s*"
+SHAPES = [
+    ("flush_message.entry", "src/comm.c", "flush", r"if \(!ip \|\| \(ip->iflags & \(CLOSING \| NET_DEAD\)\)\)" + WS + r"return 0;", 1),
+    ("flush_message.console-branch", "src/comm.c", "flush",
+     r"num_bytes = \(ip == all_users\[0\]\) \?" + WS + r"FILE_WRITE \(STDOUT_FILENO, ip->message_buf \+ ip->message_consumer, length\) :", 1),
+    ("flush_message.refused", "src/comm.c", "flush",
+     r"if \(ip != all_users\[0\]\)" + WS + r"\{" + WS + r"async_runtime_modify \(g_runtime, ip->fd, EVENT_READ \| EVENT_WRITE, ip\);"
+     + WS + r"\}" + WS + r"return 1;", 1),
+    ("flush_message.dead", "src/comm.c", "flush", r"ip->iflags \|= NET_DEAD;" + WS + r"return 0;" + WS + r"\}" + WS
+     + r"ip->message_consumer =", 1),
+    ("flush_message.drained", "src/comm.c", "flush",
+     r"if \(ip != all_users\[0\]\)" + WS + r"\{" + WS + r"async_runtime_modify \(g_runtime, ip->fd, EVENT_READ, ip\);" + WS + r"\}"
+     + WS + r"return 1;", 1),
+    ("add_message.entry", "src/comm.c", "add",
+     r"if \(!who \|\| \(who->flags & O_DESTRUCTED\) \|\| !who->interactive \|\|" + WS
+     + r"\(who->interactive->iflags & \(NET_DEAD \| CLOSING\)\)\)", 1),
+    ("add_message.broken-return", "src/comm.c", "add",
+     r"if \(!flush_message \(ip\)\)" + WS + r"\{" + WS + r"debug_message \(\"Broken connection during add_message.\\n\"\);" + WS + r"return;", 2),
+    ("add_message.order", "src/comm.c", "add",
+     r"ip->message_buf\[ip->message_producer\] = '\\r';" + WS + r"ip->message_producer = [^;]+;" + WS + r"ip->message_length\+\+;" + WS
+     + r"\}" + WS + r"ip->message_buf\[ip->message_producer\] = \*cp;" + WS + r"ip->message_producer = [^;]+;" + WS
+     + r"ip->message_length\+\+;" + WS + r"\}", 1),
+    ("add_message.tail", "src/comm.c", "add",
+     r"if \(ip->snoop_by\)" + WS + r"receive_snoop \(data, ip->snoop_by->ob\);" + WS + r"#ifdef FLUSH_OUTPUT_IMMEDIATELY" + WS
+     + r"flush_message \(ip\);" + WS + r"#else" + WS + r"if \(ip == all_users\[0\]\)[^{]*\{" + WS + r"flush_message \(ip\);" + WS + r"\}" + WS
+     + r"else" + WS + r"\{[^}]*async_runtime_modify \(g_runtime, ip->fd, EVENT_READ \| EVENT_WRITE, ip\);", 1),
+    ("add_vmessage.broken-break", "src/comm.c", "addv",
+     r"if \(!flush_message \(ip\)\)" + WS + r"\{" + WS + r"debug_message \(\"Broken connection during add_message.\\n\"\);" + WS + r"break;", 2),
+    ("add_vmessage.tail", "src/comm.c", "addv",
+     r"if \(\(ip->message_length != 0\) && !flush_message \(ip\)\)" + WS + r"debug_message \([^;]*\);" + WS + r"/\*[^*]*\*/" + WS
+     + r"if \(ip->snoop_by\)" + WS + r"receive_snoop \(str, ip->snoop_by->ob\);", 1),
+    ("get_user_command.flush", "src/comm.c", None,
+     r"ip = all_users\[s_next_user\];" + WS + r"if \(ip && ip->message_length\)" + WS + r"\{" + WS + r"object_t \*ob = ip->ob;" + WS
+     + r"flush_message \(ip\);", 1),
+    ("process_io.write-ready", "src/comm.c", None, r"if \(evt->event_type & EVENT_WRITE\)" + WS + r"\{" + WS + r"flush_message \(ip\);", 1),
+    ("process_io.close-event", "src/comm.c", None,
+     r"if \(evt->event_type & \(EVENT_ERROR \| EVENT_CLOSE\)\)" + WS + r"\{[^}]*remove_interactive \(ip->ob, 0\);" + WS + r"continue;", 1),
+    ("process_io.console", "src/comm.c", None, r"if \(all_users && all_users\[0\]\)" + WS + r"flush_message \(all_users\[0\]\);", 1),
+    ("remove_interactive.flush-then-closing", "src/comm.c", None, r"flush_message \(ip\);" + WS + r"ip->iflags \|= CLOSING;", 1),
+    ("get_user_data.eof", "src/comm.c", None,
+     r"case 0:" + WS + r"if \(ip->iflags & CLOSING\)" + WS + r"debug_message \([^;]*\);" + WS + r"ip->iflags \|= NET_DEAD;" + WS
+     + r"remove_interactive \(ip->ob, 0\);", 1),
+    ("new_interactive.ring-init", "src/comm.c", None,
+     r"master_ob->interactive->message_producer = 0;" + WS + r"master_ob->interactive->message_consumer = 0;" + WS
+     + r"master_ob->interactive->message_length = 0;", 1),
+    ("new_interactive.register-read-only", "src/comm.c", None, r"async_runtime_add \(g_runtime, socket_fd, EVENT_READ, master_ob->interactive\)", 1),
+    ("f_flush_messages", "lib/efuns/unsorted.c", None,
+     r"if \(sp->u.ob->interactive\)" + WS + r"flush_message \(sp->u.ob->interactive\);[^#]*for \(i = 0; i < max_users; i\+\+\)" + WS + r"\{" + WS
+     + r"if \(all_users\[i\] && !\(all_users\[i\]->iflags & CLOSING\)\)" + WS + r"flush_message \(all_users\[i\]\);", 1),
+    ("epoll.events-map", "lib/async/async_runtime_epoll.c", None,
+     r"if \(events & EVENT_READ\) epoll_events \|= EPOLLIN;" + WS + r"if \(events & EVENT_WRITE\) epoll_events \|= EPOLLOUT;", 1),
+    ("epoll.events-back", "lib/async/async_runtime_epoll.c", None,
+     r"if \(epoll_events & EPOLLOUT\) events \|= EVENT_WRITE;" + WS + r"if \(epoll_events & EPOLLERR\) events \|= EVENT_ERROR;" + WS
+     + r"if \(epoll_events & EPOLLHUP\) events \|= EVENT_CLOSE;", 1),
+    ("epoll.modify", "lib/async/async_runtime_epoll.c", None,
+     r"ev.events = events_to_epoll\(events\);" + WS + r"ev.data.ptr = context;[^\n]*" + WS + r"return epoll_ctl\(runtime->epoll_fd, EPOLL_CTL_MOD, fd, &ev\);", 1),
+    ("epoll.add", "lib/async/async_runtime_epoll.c", None,
+     r"ev.events = events_to_epoll\(events\);" + WS + r"ev.data.ptr = context;" + WS + r"return epoll_ctl\(runtime->epoll_fd, EPOLL_CTL_ADD, fd, &ev\);", 1),
+    ("socket_comm.send-macro", "lib/port/socket_comm.h", None, r"#define SOCKET_SEND\(s, b, l, f\)\s+send\(s, b, l, f\)", 1),
+    ("socket_comm.errno-macro", "lib/port/socket_comm.h", None, r"#define SOCKET_ERRNO\s+errno", 1),
+]
+
+HEADERS = {
+    "flush": (r"\nint flush_message \(interactive_t \* ip\) \{", "flush_message"),
+    "add": (r"\nvoid add_message \(object_t \* who, char \*data\) \{", "add_message"),
+    "addv": (r"\nvoid add_vmessage \(object_t \* who, char \*format, \.\.\.\) \{", "add_vmessage"),
+}
+
+
+def shape_checks(read):
+    """read(relative path) -> text.  Raises TieBroken on the first shape that no longer matches; returns the list of
+    checked site names (written into the Gen file as a comment and into the evidence)"""
+    done = []
+    for site, path, fn, pat, count in SHAPES:
+        text = read(path)
+        if fn:
+            text = func_body(text, HEADERS[fn][0], HEADERS[fn][1])
+        n = len(re.findall(pat, text, re.S))
+        if n != count:
+            raise X.TieBroken("shape:" + site, "%s (%s): the mirrored statement shape matches %d time(s), expected %d" % (site, path, n, count))
+        done.append(site)
+    return done
